@@ -25,8 +25,12 @@ TTokGlob == << <<97>>, <<98>>, <<66>>, <<47>>, <<32>>, <<9>>, <<42>>, <<12>> >>
 TTokWide == TTokGlob \o << <<45>>, <<93>>, <<11>>, <<91>>, <<13>> >>
 \* texts "bracket":  y  Y  b  a  -  [  ]  :  x  ^  Z
 TTokBracket == << <<121>>, <<89>>, <<98>>, <<97>>, <<45>>, <<91>>, <<93>>, <<58>>, <<120>>, <<94>>, <<90>> >>
-PTok == CASE Alpha = "glob" -> PTokGlob [] Alpha = "wide" -> PTokWide [] Alpha = "bracket" -> PTokBracket
-TTok == CASE Alpha = "glob" -> TTokGlob [] Alpha = "wide" -> TTokWide [] Alpha = "bracket" -> TTokBracket
+\* "deep": `**/` in front of a single star that is followed by `?` or a bracket expression, against texts
+\* two directories deep (where only a restart of `**` at a deeper directory matches)
+PTokDeep == << <<42,42,47>>, <<42>>, <<63>>, <<91,97,45,99,93>>, <<97>>, <<47>> >>
+TTokDeep == << <<97,47>>, <<98,47>>, <<97>>, <<99>>, <<98>> >>
+PTok == CASE Alpha = "glob" -> PTokGlob [] Alpha = "wide" -> PTokWide [] Alpha = "bracket" -> PTokBracket [] Alpha = "deep" -> PTokDeep
+TTok == CASE Alpha = "glob" -> TTokGlob [] Alpha = "wide" -> TTokWide [] Alpha = "bracket" -> TTokBracket [] Alpha = "deep" -> TTokDeep
 
 \* all concatenations of exactly n tokens, in a fixed order
 RECURSIVE Strings(_, _)
